@@ -153,7 +153,7 @@ func stressRename(r *vl.Rng, p *Program, n int, count func(string)) *Program {
 		}
 		var id ident
 		var name string
-		if r.Chance(40) {
+		if r.Chance(8) {
 			a := aims[r.Intn(len(aims))]
 			name = a.make(cur, r)
 			var cands []ident
